@@ -227,7 +227,7 @@ class RecipeManager:
           config['regex'],
           config['operation'],
           _OpQuantizationConfig.from_dict(config['op_config'])
-          if config['algorithm_key'] != AlgorithmName.NO_QUANTIZE
+          if 'op_config' in config
           else None,
           config['algorithm_key'],
       )
